@@ -1231,3 +1231,276 @@ def c19(run):
                 "status and the complete canonical payload (verdicts, certificates, trees) must be identical to the reference, and no race may "
                 "be reported. Non-trivial = judged ok; distinct by op line.",
                 assumptions=["thread schedules are sampled, not enumerated", "the static buffers of CMRelementString / CMRspReductionString (documented fallback when NULL is passed) are not exercised by recognition and are outside the model"])
+
+
+# ------------------------------------------------------------------------------------------------------------------
+# C10 relations between presentations of the same instance
+# ------------------------------------------------------------------------------------------------------------------
+
+R10_TU = [[1, -1, 0, 0, -1], [-1, 1, -1, 0, 0], [0, -1, 1, -1, 0], [0, 0, -1, 1, -1], [-1, 0, 0, -1, 1]]
+R10_B = [[1, 1, 1, 1, 1], [1, 1, 1, 0, 0], [1, 0, 1, 1, 0], [1, 0, 0, 1, 1], [1, 1, 0, 0, 1]]
+R12 = [[1, 0, 1, 1, 0, 0], [0, 1, 1, 1, 0, 0], [1, 0, 1, 0, 1, 1], [0, -1, 0, -1, 1, 1], [1, 0, 1, 0, 1, 0], [0, -1, 0, -1, 0, 1]]
+F7 = [[1, 1, 0, 1], [1, 0, 1, 1], [0, 1, 1, 1]]
+W3 = [[1, 1, 0], [0, 1, 1], [1, 0, 1]]     # wheel: det 2 as a real matrix
+
+
+def rows_of(m, n, flat):
+    return [list(flat[i * n:(i + 1) * n]) for i in range(m)]
+
+
+def flat_of(rows):
+    return [x for r in rows for x in r]
+
+
+def net_piece(rng, signed, lo, hi):
+    """(transposed) network / graphic matrix of a random (di)graph with a random spanning forest"""
+    while True:
+        nn = rng.randint(lo, hi)
+        ne = nn - 1 + rng.randint(1, max(1, nn))
+        edges = rand_multigraph(rng, nn, ne, loops=rng.random() < 0.1)
+        forest = spanning_forest(rng, nn, edges)
+        fs = set(forest)
+        cof = [i for i in range(ne) if i not in fs]
+        if not forest or not cof:
+            continue
+        rev = [rng.random() < 0.5 for _ in range(ne)]
+        flat = cycle_matrix(nn, edges, forest, cof, signed=signed, rev=rev)
+        rows = rows_of(len(forest), len(cof), flat)
+        if rng.random() < 0.3:
+            rows = [list(c) for c in zip(*rows)]
+        return rows
+
+
+def onesum_rows(A, B):
+    na = len(A[0]) if A else 0
+    nb = len(B[0]) if B else 0
+    return [r + [0] * nb for r in A] + [[0] * na + r for r in B]
+
+
+def twosum_rows(A, B, ternary):
+    """[[A', 0], [d c^T, D]] with c^T = last row of A, d = first column of B"""
+    c = A[-1]; A1 = A[:-1]
+    d = [r[0] for r in B]; D = [r[1:] for r in B]
+    nd = len(D[0]) if D else 0
+    def red(x):
+        return x if ternary else x % 2
+    return [r + [0] * nd for r in A1] + [[red(d[i] * cj) for cj in c] + D[i] for i in range(len(B))]
+
+
+def c10_instance(rng, signed, size):
+    """a matrix assembled from network pieces, R10/R12 and 1-/2-sums of those, optionally corrupted, lines shuffled"""
+    def piece():
+        x = rng.random()
+        if x < 0.70:
+            return net_piece(rng, signed, 3, max(4, size))
+        if x < 0.80:
+            return [r[:] for r in (R10_TU if signed else rng.choice((R10_B, [[abs(v) for v in r] for r in R10_TU])))]
+        if x < 0.88:
+            return [[(v if signed else abs(v)) for v in r] for r in R12]
+        if x < 0.92:
+            return [r[:] for r in rng.choice((F7, W3, [list(c) for c in zip(*F7)]))]
+        return net_piece(rng, signed, 2, 4)
+    M = piece()
+    for _ in range(rng.choice((0, 0, 1, 1, 2, 3))):
+        B = piece()
+        if rng.random() < 0.4 or len(M) < 2 or len(B[0]) < 2:
+            M = onesum_rows(M, B)
+        else:
+            # move a nonzero row of M last and a nonzero column of B first where possible
+            nzr = [i for i, r in enumerate(M) if any(r)]
+            nzc = [j for j in range(len(B[0])) if any(r[j] for r in B)]
+            if nzr:
+                i = rng.choice(nzr); M = M[:i] + M[i + 1:] + [M[i]]
+            if nzc:
+                j = rng.choice(nzc); B = [[r[j]] + r[:j] + r[j + 1:] for r in B]
+            M = twosum_rows(M, B, signed)
+    m, n = len(M), len(M[0])
+    ncorr = rng.choice((0, 0, 0, 1, 1, 2, 3))
+    for _ in range(ncorr):
+        i, j = rng.randrange(m), rng.randrange(n)
+        if M[i][j] == 0:
+            M[i][j] = rng.choice((1, -1)) if signed else 1
+        elif signed and rng.random() < 0.5:
+            M[i][j] = -M[i][j]
+        else:
+            M[i][j] = 0
+    rp = list(range(m)); cp = list(range(n)); rng.shuffle(rp); rng.shuffle(cp)
+    return [[M[i][j] for j in cp] for i in rp]
+
+
+def c10_transformation(rng, m, n, signed, M):
+    """a random composite transformation as token list; tracks the shape (and the entries where pivots need them)"""
+    steps = []
+    cur = [r[:] for r in M]
+    k = rng.choice((1, 1, 2, 2, 3, 4))
+    for _ in range(k):
+        m, n = len(cur), (len(cur[0]) if cur else n)
+        kinds = ["T", "P", "P", "Z", "U", "D", "S"]
+        if signed: kinds += ["N", "N"]
+        nz = [(i, j) for i in range(m) for j in range(n) if cur[i][j]]
+        if nz: kinds += ["V", "V"]
+        kind = rng.choice(kinds)
+        if m == 0 or n == 0:
+            kind = "T"
+        if kind == "T":
+            steps.append("T"); cur = [list(c) for c in zip(*cur)] if cur and cur[0] else [[] for _ in range(n)]
+            if not cur: cur = []
+            if m == 0 or n == 0: break
+        elif kind == "P":
+            rp = list(range(m)); cp = list(range(n)); rng.shuffle(rp); rng.shuffle(cp)
+            steps.append("P %s %s" % (" ".join(map(str, rp)), " ".join(map(str, cp))))
+            cur = [[cur[i][j] for j in cp] for i in rp]
+        elif kind == "S":
+            rs = sorted(rng.sample(range(m), max(1, m - rng.randint(0, max(1, m // 4)))))
+            cs = sorted(rng.sample(range(n), max(1, n - rng.randint(0, max(1, n // 4)))))
+            if rng.random() < 0.3: rng.shuffle(rs); rng.shuffle(cs)
+            steps.append("S %d %d %s %s" % (len(rs), len(cs), " ".join(map(str, rs)), " ".join(map(str, cs))))
+            cur = [[cur[i][j] for j in cs] for i in rs]
+        elif kind == "N":
+            if rng.random() < 0.5:
+                i = rng.randrange(m); steps.append("NR %d" % i); cur[i] = [-x for x in cur[i]]
+            else:
+                j = rng.randrange(n); steps.append("NC %d" % j)
+                for r in cur: r[j] = -r[j]
+        elif kind == "V":
+            i, j = rng.choice(nz)
+            steps.append("%s %d %d" % ("V3" if signed else "V2", i, j))
+            e = cur[i][j]
+            new = [[0] * n for _ in range(m)]
+            for a in range(m):
+                for b in range(n):
+                    if a == i: v = -e if b == j else e * cur[i][b]
+                    elif b == j: v = e * cur[a][j]
+                    else: v = cur[a][b] - e * cur[a][j] * cur[i][b]
+                    if signed:
+                        v %= 3; v = -1 if v == 2 else v
+                    else:
+                        v %= 2
+                    new[a][b] = v
+            cur = new
+        else:
+            isrow = rng.random() < 0.5
+            lines, other = (m, n) if isrow else (n, m)
+            pos = rng.randint(0, lines)
+            sg = rng.choice((1, -1)) if signed else 1
+            if kind == "Z":
+                steps.append("%s %d" % ("ZR" if isrow else "ZC", pos)); vec = [0] * other
+            elif kind == "U":
+                src = rng.randrange(other)
+                steps.append("%s %d %d %d" % ("UR" if isrow else "UC", pos, src, sg)); vec = [sg if t == src else 0 for t in range(other)]
+            else:
+                src = rng.randrange(lines)
+                steps.append("%s %d %d %d" % ("DR" if isrow else "DC", pos, src, sg))
+                vec = [sg * x for x in cur[src]] if isrow else [sg * r[src] for r in cur]
+            if isrow: cur = cur[:pos] + [vec] + cur[pos:]
+            else: cur = [r[:pos] + [vec[a]] + r[pos:] for a, r in enumerate(cur)]
+    return "%d %s" % (len(steps), " ".join(steps))
+
+
+def delta_operand(rng, lo, hi):
+    """graphic 0/1 matrix [[A, a, a],[c^T, 0, 1]] up to line order: a graph with a triangle one of whose edges is a tree edge.
+    Returns rows, special row, column with 0 in the special row, column with 1 there."""
+    while True:
+        nn = rng.randint(max(3, lo), max(3, hi))
+        ne = nn - 1 + rng.randint(1, nn)
+        edges = rand_multigraph(rng, nn, ne, loops=False)
+        forest = spanning_forest(rng, nn, edges)
+        if len(forest) != nn - 1:
+            continue
+        t = rng.choice(forest)
+        u, v = edges[t]
+        others = [w for w in range(nn) if w not in (u, v)]
+        if not others:
+            continue
+        w = rng.choice(others)
+        edges = edges + [(u, w), (w, v)]
+        fs = set(forest)
+        cof = [i for i in range(len(edges)) if i not in fs]
+        rng.shuffle(cof)
+        fo = list(forest); rng.shuffle(fo)
+        flat = cycle_matrix(nn, edges, fo, cof)
+        rows = rows_of(len(fo), len(cof), flat)
+        r = fo.index(t)
+        c1, c2 = cof.index(len(edges) - 2), cof.index(len(edges) - 1)
+        # the two new columns agree outside row r and differ in row r
+        if rows[r][c1] == rows[r][c2] or any(rows[i][c1] != rows[i][c2] for i in range(len(fo)) if i != r):
+            continue
+        ca, cb = (c1, c2) if rows[r][c1] == 0 else (c2, c1)
+        return rows, r, ca, cb
+
+
+@check("C10")
+def c10(run):
+    quick = run.tier == "quick"
+    rng = run.rng
+    lines = []
+    ninst = 240 if quick else 2400
+    maxsize = 100 if quick else 300
+    for k in range(ninst):
+        signed = rng.random() < 0.5
+        small = rng.random() < 0.25
+        size = rng.randint(3, 5) if small else rng.randint(6, maxsize)
+        M = c10_instance(rng, signed, size)
+        m, n = len(M), len(M[0])
+        recs = ["tu", "net", "con", "spt"] if signed else ["reg", "gra", "cog", "spb", "tu", "net", "con"]
+        if m <= 9 and n <= 9:
+            recs += ["bal", "cam"] if signed else ["bal"]
+        mask = DEFAULT_MASK
+        if rng.random() < 0.5:
+            mask = (rng.getrandbits(13) & ~3 & ~(B_STOP_IRR | B_STOP_NG | B_STOP_NCG | B_STOP_NEITHER)) | strategy(rng.randrange(5))
+            mask |= B_SP | B_DIRECT     # D7/D7b: the configurations without these abort on series-parallel inputs (known findings)
+            if not signed: mask &= ~B_TERNARY
+        if signed: mask |= B_TERNARY
+        if m <= 6 and n <= 6 and rng.random() < 0.5:
+            mask = (mask & ~3) | rng.choice((1, 2))
+        mask |= (rng.randrange(2) << 20) | (rng.getrandbits(1) << 22)     # balanced: AUTO or SUBMATRIX (GRAPH is not implemented), seriesParallel
+        ntr_total = 16 if quick else 48
+        per = 4
+        mt = mat_tokens(m, n, flat_of(M))
+        for _ in range(ntr_total // per):
+            gs = [c10_transformation(rng, m, n, signed, M) for _ in range(per)]
+            lines.append("rel %d %s %s %d %s" % (mask, ",".join(recs), mt, per, " ".join(gs)))
+    cut = len(lines) * 3 // 4
+    run.batch("transformations", lines[:cut], "plain")
+    run.batch("transformations-sanitized", lines[cut:], "asan")
+    # sums of instances
+    sums = []
+    for _ in range(150 if quick else 2000):
+        signed = rng.random() < 0.5
+        size = rng.randint(3, 16 if quick else 60)
+        A = c10_instance(rng, signed, size); B = c10_instance(rng, signed, size)
+        recs = ["tu", "net", "con", "spt"] if signed else ["reg", "gra", "cog", "spb", "tu"]
+        mask = DEFAULT_MASK if signed else DEFAULT_MASK & ~B_TERNARY
+        ch = 3 if signed else 2
+        ma, na, mb, nb = len(A), len(A[0]), len(B), len(B[0])
+        if rng.random() < 0.3:
+            sums.append("relsum %d %s 1 %d %s %s" % (mask, ",".join(recs), ch, mat_tokens(ma, na, flat_of(A)), mat_tokens(mb, nb, flat_of(B))))
+        else:
+            if rng.random() < 0.5: s = [rng.randrange(ma), -1, -1, rng.randrange(nb)]
+            else: s = [-1, rng.randrange(na), rng.randrange(mb), -1]
+            sums.append("relsum %d %s 2 %d %s %s %s" % (mask, ",".join(recs), ch, mat_tokens(ma, na, flat_of(A)), mat_tokens(mb, nb, flat_of(B)), " ".join(map(str, s))))
+    for _ in range(100 if quick else 1500):
+        hi = 10 if quick else 40
+        A, r1, ca, cb = delta_operand(rng, 3, hi)
+        B, r2, cd, cc = delta_operand(rng, 3, hi)     # second operand: (eps;d) column is the one with 1, (0;d) the one with 0
+        mask = DEFAULT_MASK & ~B_TERNARY
+        if rng.random() < 0.5:
+            sums.append("relsum %d reg,gra,tu D 2 %s %s %d %d %d %d %d %d" % (mask, mat_tokens(len(A), len(A[0]), flat_of(A)),
+                        mat_tokens(len(B), len(B[0]), flat_of(B)), r1, ca, cb, r2, cc, cd))
+        else:
+            At = [list(c) for c in zip(*A)]; Bt = [list(c) for c in zip(*B)]
+            sums.append("relsum %d reg,cog,tu Y 2 %s %s %d %d %d %d %d %d" % (mask, mat_tokens(len(At), len(At[0]), flat_of(At)),
+                        mat_tokens(len(Bt), len(Bt[0]), flat_of(Bt)), ca, cb, r1, cc, cd, r2))
+    run.batch("sums", sums, "plain")
+    return dict(rule="instances: (transposed) network / graphic matrices of random (di)graphs with random spanning forests, R10, R12, planted F7 / "
+                "wheel blocks and 1-/2-sums of those, 0-3 corrupted entries, lines shuffled (quick up to ~60, thorough up to ~300 lines); each "
+                "with seeded composite transformations (transpose, permutation, line negation, insertion of zero / unit / duplicate lines, "
+                "submatrix, GF(2)/GF(3) pivot; applied through CMRchrmatTranspose/Permute/Slice/BinaryPivot/TernaryPivot where the API has "
+                "them) under seeded option masks: the transformed matrix must equal the Lean model's, and for every class the verdicts on M "
+                "and g(M) must satisfy the relation of Cmr.Rel.stepsRel (equal, dual class after transposition, yes => yes for submatrices). "
+                "Sums: 1-/2-sums of two instances and delta-/Y-sums of graphic operands built around a triangle, composed by the library, compared "
+                "with the composition model, verdicts related by Cmr.Rel.sumRel. Non-trivial = at least one relation checked; distinct by line.",
+                assumptions=["the relations themselves are classical matroid theory (closure of the classes under the operations); those proved in "
+                             "Lean are listed in Props/C10.lean, the others (pivot invariance, 2-/3-sum closure of graphic/network/regular, "
+                             "series-parallel basis independence) are trusted mathematics",
+                             "option masks with seriesParallel or directGraphicness off are excluded (known findings D7/D7b abort there)"])
